@@ -1,5 +1,6 @@
 #!/usr/bin/env python3
-"""tools/update_expect.py <matrix.json> [<matrix.json> ...]
+"""tools/update_expect.py [--merge] <matrix.json> [<matrix.json> ...]
+--merge: keep the entries of the existing expect.json that the given matrices do not mention (partial matrix of a new round).
 Rebuilds selftest/expect.json (which checks fire on which seeded change) from kill-matrix runs (`python3 ndi/selftest.py matrix`).
 Refuses to record a behaviour-preserving patch (neutral_*) on which a check fires, and a seeded violation its target check misses
 unless it is listed in FLOAT_ONLY (algebraically identical over the reals: outside what this technique decides)."""
@@ -12,9 +13,10 @@ HAND_TARGET = {'d1_prefix_nak_right': 'C03', 'd2_prefix_into_shape': 'C13', 'd3_
                'd5_prefix_fast_trailing': 'C14'}
 p = os.path.join(HERE, 'selftest', 'expect.json')
 old = json.load(open(p)) if os.path.exists(p) else {}
-out = {}
+merge = '--merge' in sys.argv
+out = dict(old) if merge else {}
 bad = []
-for mf in sys.argv[1:]:
+for mf in [a for a in sys.argv[1:] if a != '--merge']:
     for name, o in json.load(open(mf)).items():
         if o['status'] != 'ok':
             print('skipped', name, o['status'])
